@@ -29,6 +29,8 @@ def sem(kinds, aspects, families='small,abc', ci='0', cfgs='all', **kw):
     return (B, 'sem', d)
 
 
+LEMMA_NOTE = (' Lemma unit l1_semantics (pure Verus, no code): L-lm (C01), L-std (C02), L-ov (C03), L-stream (C07) derive the property statements '
+              'from the abstract-run postconditions of the real functions plus the semantic contract SC of the built automaton (SC is a hypothesis on the builders, executed by the bounded stand-ins; L-stream needs no SC at all).')
 COMMON_NOTE = ('Trusted/assumed: Verus 0.2026.09.13 + Z3; the extraction rewrite rules of vlib/extract.py (listed per run in the evidence); '
                'machine integers are Rust\'s (usize = 64 bit, slices shorter than usize::MAX); identifier newtypes abstracted as u32 newtypes; '
                'MatchError constructors opaque. The contracts AC/SC/PC of a *built* automaton are hypotheses of the proofs; they are executed on the real '
@@ -44,22 +46,22 @@ U2R = U2 + [(V, 'u2_replace', {})]
 
 PROPS = {
     'C01': dict(
-        components=[(V, 'u1_search', {}), (V, 'u1_iter', {}),
+        components=[(V, 'l1_semantics', {})] + [(V, 'u1_search', {}), (V, 'u1_iter', {}),
                     sem('lf,ll', 'find,iter,spans'), sem('lf,ll', 'find,iter', families='deep,bytes,many')],
         level_text='Proof (Verus, unbounded in haystack/span): the real try_find_fwd/try_find_fwd_imp/get_match return the abstract run answer find_spec ("keep the last match, stop at dead state or span end") of any automaton satisfying the Automaton contract AC, and FindIter::next/handle_overlapping_empty_match/search implement the iterator step relation of the statement (restart at previous end, empty-match rule). Bounded stand-in: leftmost-first/longest definition vs the real builders on all small pattern lists.',
-        level_note=COMMON_NOTE,
+        level_note=LEMMA_NOTE + COMMON_NOTE,
     ),
     'C02': dict(
-        components=[(V, 'u1_search', {}), (V, 'u1_iter', {}),
+        components=[(V, 'l1_semantics', {})] + [(V, 'u1_search', {}), (V, 'u1_iter', {}),
                     sem('std', 'find,iter,spans'), sem('std', 'find,iter', families='deep,bytes')],
         level_text='Proof (Verus): try_find_fwd forces earliest for standard automata (dispatcher obligation) and the loop returns at the first match state (find_spec with earliest); iterator as in C01. Bounded stand-in: earliest-end/longest/first-supplied definition vs the real builders.',
-        level_note=COMMON_NOTE,
+        level_note=LEMMA_NOTE + COMMON_NOTE,
     ),
     'C03': dict(
-        components=[(V, 'u1_overlap', {}),
+        components=[(V, 'l1_semantics', {})] + [(V, 'u1_overlap', {}),
                     sem('std', 'ov,spans'), sem('std', 'ov', families='deep,bytes')],
         level_text='Proof (Verus): every call of the real try_find_overlapping_fwd(_imp) on an OverlappingState reports the head of ov_remaining(state) (abstraction function over id/at/next_match_index) and leaves its tail, or reports None forever once it is empty — for all call-history prefixes, haystacks, spans. Bounded stand-in: the listing equals all occurrences exactly once in (end, longer-first, id) order on the real builders.',
-        level_note=COMMON_NOTE,
+        level_note=LEMMA_NOTE + COMMON_NOTE,
     ),
     'C04': dict(
         components=[('kani', 'alphabet_leaf', {})] + U1 + [b('bisim', families='small,abc,ci,wide'),
@@ -79,9 +81,9 @@ PROPS = {
         level_note='Teddy window arithmetic, bucket assignment and Rabin-Karp are covered by the bounded executed contract only (labelled bounded). SIMD intrinsics are outside every installed verifier.',
     ),
     'C07': dict(
-        components=U2 + [(V, 'u1_iter', {}), b('stream', aspects='find'), b('ac', families='small', lens='1')],
+        components=[(V, 'l1_semantics', {})] + U2 + [(V, 'u1_iter', {}), b('stream', aspects='find'), b('ac', families='small', lens='1')],
         level_text='Proof (Verus, fully within the family): for every reader obeying the std::io::Read contract — i.e. for all read sizes, all positions where a read ends, all buffer capacities > min — the real StreamChunkIter::next/StreamFindIter::next yield exactly st_rest(stream), the run of the abstract automaton over the concatenated stream with absolute offsets (Buffer::new/fill/roll proved with content postconditions). The in-memory side (FindIter over find_spec) is proved in u1_iter. Bounded companion: real readers with explicit schedules and capacities 1..8 bytes above the minimum (hook H2).',
-        level_note=COMMON_NOTE + ' Read contract = std documentation (assumption about the caller\'s reader). Buffer::free_buffer (one line) is trusted with a stated contract. Streams shorter than 2^64 bytes.',
+        level_note=LEMMA_NOTE + COMMON_NOTE + ' Read contract = std documentation (assumption about the caller\'s reader). Buffer::free_buffer (one line) is trusted with a stated contract. Streams shorter than 2^64 bytes.',
     ),
     'C08': dict(
         components=U2R + [b('stream', aspects='replace')],
